@@ -171,6 +171,7 @@ def window_when_(
             try:
                 window_close = closing_mapper()
             except Exception as exception:
+                window.on_error(exception)
                 observer.on_error(exception)
                 return
 
